@@ -302,7 +302,8 @@ def main(tier, seed, only=None):
         rep.function(f)
     if tier == "quick":
         jobs = [("H01a", f"H01a:n{n}:k{k}", h01a(n, k)) for n, k in ((2, 2), (3, 2), (3, 3))]
-        jobs += [("H01b", f"H01b:front:{c}:n2", h01b(c, 2, c == "regular", "front")) for c in CELLS_B]
+        jobs += [("H01b", "H01b:front:regular:n1:u", h01b("regular", 1, True, "front")), ("H01b", "H01b:front:regular:n2:w", h01b("regular", 2, False, "front"))]
+        jobs += [("H01b", f"H01b:front:{c}:n2", h01b(c, 2, False, "front")) for c in CELLS_B if c != "regular"]
         jobs += [("H01b", "H01b:loop:n2", h01b("regular", 2, False, "loop"))]
     else:
         jobs = [("H01a", f"H01a:n{n}:k{k}", h01a(n, k)) for n, k in ((2, 2), (2, 3), (3, 2), (3, 3), (4, 2))]
@@ -315,7 +316,7 @@ def main(tier, seed, only=None):
     if not only:
         rep.require_reached("H01a:overlapping-input", "H01b:ValueError", "H01b:returned")
     rep.bounds = {"H01a": "k clusters over n atoms, (n,k) in " + ("(2,2),(3,2),(3,3)" if tier == "quick" else "(2,2),(2,3),(3,2),(3,3),(4,2)") + "; arbitrary non-empty index sets, <=2 species, symbolic symmetric distance matrix, merge_threshold in [0,1], merge_radius, bond_threshold>0 symbolic",
-                  "H01b": "whole get_clusters, n=2 (1..3 thorough) atoms; front: 8 pbc combinations x cells regular / zero third vector / zero first vector x (un)wrapped symbolic positions with a finder that finds nothing; loop: fully periodic regular cell with every FinderStub answer and a symbolic matrix"}
+                  "H01b": "whole get_clusters, n=2 (1 for unwrapped positions in the quick tier; 1..3 thorough) atoms; front: 8 pbc combinations x cells regular / zero third vector / zero first vector x (un)wrapped symbolic positions with a finder that finds nothing; loop: fully periodic regular cell with every FinderStub answer and a symbolic matrix"}
     rep.stubs = ["FinderStub for PeriodicFinder.get_region (None or arbitrary basis subset; arbitrary mask with mask[seed]=True)", "DBSCANStub (components of D<=eps)",
                  "get_distances -> arbitrary symbolic radii-corrected matrix (over-approximates the extension)", "numpy.random.default_rng -> nondeterministic choice, seed recorded",
                  "ase.geometry.complete_cell on concrete cells", "StubAtoms"]
